@@ -236,6 +236,17 @@ CHECKS["C13"] = dict(
     technique="CrossHair symbolic execution (z3) of the real __eq__/__hash__/__repr__ and expr_equals over payload and DAG-shape spaces",
     design="§4 C13", engine="E2", note=XH_NOTE)
 
+CHECKS["C29"] = dict(
+    level="model_checking",
+    text="cmp_expr and the structural equality of a+b / b+a and a*b / b*a are tabulated by the real code on every pair of "
+         "a ~70-expression operand pool (counts and mesh ids on both sides of digit boundaries, fixed/free indexed "
+         "tensors, operators, shared vs rebuilt sub-expressions, variables); z3 proves over symbolic indices that cmp is a "
+         "total preorder (antisymmetric, transitive for < and ==), that cmp == 0 only for operands equal up to index/"
+         "label numbering, and that distinguishable operands give order-independent sums and products; sorted_expr is "
+         "permutation independent on distinguishable triples.",
+    technique="SMT (z3) check of preorder axioms over comparison tables regenerated from the real cmp_expr",
+    design="§4 C29", engine="E3", note=TABLE_NOTE)
+
 NOT_APPLICABLE = {
     "C11": "Signature injectivity is injectivity of string renderings (repr/str, numpy array printing, float "
            "formatting) composed with sha512: CrossHair cannot confirm it, z3/cvc5 string theories answer unknown, "
